@@ -26,7 +26,12 @@ RULE = ("family grid: exhaustive counts 0–12 × 6 endpoint pairs, 2-D counts 0
         "Iterator2D::new, the five into_signal_idler_iterator() routes, chain/zip of two partly consumed ranges, against the same "
         "program on Vec::into_iter() over the documented points: every boundary program (taken 0–4 from one end × jump 0..n+1 from "
         "the other, every stride 1..n+1) for counts 0–6 (quick) / 0–9 and grids ≤ 3×3 / 4×4, then seeded random ranges and programs "
-        "(arguments 0, 1, n−1, n, n+1, usize::MAX …); primitive programs also against the Lean state machine (K steps_prog, steps2d_prog)")
+        "(arguments 0, 1, n−1, n, n+1, usize::MAX …); primitive programs also against the Lean state machine (K steps_prog, steps2d_prog). "
+        "family grid / range_setups: the eight *_range functions (idler-singles against the exchanged setup point by point) × five kinds of "
+        "range × {grid around the centre, grid leaving the valid frequency box} on 12 kinds of setup built from JSON — idler block a copy "
+        "of the signal block with two different waist positions (collinear, non-collinear, type 0, type I, one position auto), explicit "
+        "non-copied idlers, auto idler, zero centre amplitude (optimum outside the 0.75·wp box, deff 0, power 0), NaN centre (zero pump "
+        "bandwidth) — non-finite values compared as identical (NaN ≡ NaN)")
 RESIDUAL = "floating-point rounding of the grid values (measured by the comparison, not proved)"
 CHECKER_MODULES = ["Spdc.Real.GridLemmas", "Spdc.Real.GridProgLemmas"]
 
